@@ -116,6 +116,14 @@ pub fn run(toks: &[&str]) -> String {
                     for (r, a) in &p { s.push(' '); s.push_str(&hex(*r)); s.push(' '); s.push_str(&hex(*a)); }
                     Some(s)
                 }
+                "view" => {
+                    // get_vreg_by(mask): does the view exist, and its full range
+                    let m = parse_n(t.next().unwrap());
+                    match reg.get_vreg_by(m) {
+                        Some(v) => Some(format!("w 1 {}", v[..])),
+                        None => Some("w 0 0".to_string()),
+                    }
+                }
                 "vreglen" => {
                     let v = reg.get_vreg();
                     Some(format!("v {} {}", v[..], reg.num()))
